@@ -81,7 +81,10 @@ def main(tier: str) -> int:
     big_frames = wire.dec_delimited(big_data)
     big_ends = [e for _, _, e in wire.frame_extents(big_data)]
     big_counts = producer.denoting_per_frame(big_frames)
-    big_full, _ = drain("generic", big_data)
+    big_full, big_exc = drain("generic", big_data)
+    if big_exc is not None:
+        run.violation({"clause": "complete-stream-does-not-parse", "integ": "generic", "cut_class": "none"},
+                      f"the complete stream with a 1.4 MB frame does not parse: {big_exc}", {"stream": "large-frame"})
     big_cuts = sorted({c for c in list(range(0, len(big_data), 131_072)) + [2**20 - 1, 2**20, 2**20 + 1, 2**20 + 70_000, len(big_data) - 2, len(big_data) - 1, len(big_data)]
                        + [e for e in big_ends] + [e - 1 for e in big_ends] if 0 <= c <= len(big_data)})
     big_records = []
@@ -110,7 +113,9 @@ def main(tier: str) -> int:
             norm = rdf_norm if integ == "rdflib" else terms.norm_item
             full, exc = drain(integ, data)
             if exc is not None:
-                env.machinery_failure(f"C10: the complete stream {label} does not parse: {exc}")
+                run.violation({"clause": "complete-stream-does-not-parse", "integ": integ, "cut_class": "none"},
+                              f"the complete (uncut) stream {label} does not parse: {exc}", {"stream": label, "hex": data.hex()[:2000]})
+                continue
             full = [norm(x) for x in full]
             for cut in range(0, len(data) + 1):
                 got, exc = drain(integ, data[:cut])
